@@ -136,3 +136,139 @@ Example C13_ex_pulse : export_instance (mkCall (TPrim "PulseVoltageSource")
     (map (fun n => (of_string n, 1, if String.eqb n "delay" then VInt 5 else VNone)) ["delay"; "v1"; "v2"; "period"; "rise"; "fall"; "width"]%string))
   = Ok (of_string "vlsir.primitives", of_string "vpulse", [(of_string "td", PVPrefixed (NInt64 5) "UNIT")]).
 Proof. vm_compute. reflexivity. Qed.
+
+(* ================================================================== strengthening round: values that pass SEVERAL of the
+   isinstance tests of export_param_value / to_scalar (members of `class Corner(str, Enum)`, IntEnum members, bools,
+   subclass instances, ...).  Model/C13Dispatch.v: `pyobj` = which base classes the object is an instance of and the content
+   each gives it; the if-chains are `first_match` over an explicit list of tests.  Spec/C13Overlap.v: `expected_obj kind o` =
+   (refusal admissible, what must be observable): the common reading of all facets, no requirement if they differ. *)
+Require Import Hdl21.Model.C13Dispatch Hdl21.Spec.C13Overlap Hdl21.Proofs.C13OverlapProofs.
+
+(* 6. the dispatch of export_param_value, first matching test wins: None, str, Enum, Literal, Prefixed, Decimal, int, float, TypeError *)
+Theorem C13_dispatch_first_match o :
+  export_param_value_obj o =
+  export_param_value
+    (if o_none o then VNone else
+     match o_str o with Some s => VStr s | None =>
+     match o_enum o with Some e => VEnum e | None =>
+     match o_lit o with Some s => VLit s | None =>
+     match o_pre o with Some p => VPrefixed p | None =>
+     match o_dec o with Some d => VDecimal d | None =>
+     match o_int o with Some (z, _) => VInt z | None =>
+     match o_flt o with Some (b, r) => VFloat b r | None => VOther end end end end end end end).
+Proof.
+  unfold export_param_value_obj, export_view, export_order. cbn [first_match].
+  unfold br_none, br_str, br_enum, br_lit, br_pre, br_dec, br_int, br_flt.
+  destruct (o_none o); [reflexivity|]. destruct (o_str o); [reflexivity|]. destruct (o_enum o); [reflexivity|].
+  destruct (o_lit o); [reflexivity|]. destruct (o_pre o); [reflexivity|]. destruct (o_dec o); [reflexivity|].
+  destruct (o_int o) as [[z b]|]; [reflexivity|]. destruct (o_flt o) as [[b r]|]; reflexivity.
+Qed.
+Print Assumptions C13_dispatch_first_match.
+
+(* 7. EVERY object, whatever combination of facets it has, given to a parameter of kind Scalar (0), Optional[Scalar] (1) or stored
+      as given (>= 4): if its facets have a common reading that the format can hold, construction + export show exactly that
+      reading — or, only where the specification admits it (an Enum member whose value is not a string; a bool handed to a
+      Scalar), the object is refused.  Never altered. *)
+Theorem C13_overlap_preserved kind o : obj_wf o = true -> kind <> 2 -> kind <> 3 ->
+  is_free (snd (expected_obj kind o)) = false -> unrepresentable (snd (expected_obj kind o)) = false ->
+  (exists st ov, store_obj kind o = Ok st /\ export_param_value_obj st = Ok ov /\
+                 match ov with None => snd (expected_obj kind o) = XOmit | Some pv => shows (snd (expected_obj kind o)) pv = true end)
+  \/ (fst (expected_obj kind o) = true /\
+      ((exists e, store_obj kind o = Error e) \/ exists st e, store_obj kind o = Ok st /\ export_param_value_obj st = Error e)).
+Proof. exact (obj_preserved kind o). Qed.
+Print Assumptions C13_overlap_preserved.
+
+(*    the same for a field typed by the object's own Enum class (kind 3): a member whose value is a string is never refused *)
+Theorem C13_overlap_enum_field o s : obj_wf o = true -> o_enum o = Some (Some s) ->
+  is_free (snd (expected_obj 3 o)) = false -> unrepresentable (snd (expected_obj 3 o)) = false ->
+  exists ov, store_obj 3 o = Ok o /\ export_param_value_obj o = Ok ov /\
+             match ov with None => snd (expected_obj 3 o) = XOmit | Some pv => shows (snd (expected_obj 3 o)) pv = true end.
+Proof. exact (enum_field_preserved o s). Qed.
+Print Assumptions C13_overlap_enum_field.
+
+(*    the property does not depend on the order of the eight tests: for ANY re-ordering of the chain the value handed to the
+      branch bodies is exported so that it shows the common reading, or is the non-string Enum member (refused) *)
+Theorem C13_overlap_any_order bs o x : reordering bs -> obj_wf o = true ->
+  agree (readings 4 (facets o)) = x -> is_free x = false -> unrepresentable x = false ->
+  (exists ov, export_param_value (first_match bs o) = Ok ov /\ match ov with None => x = XOmit | Some pv => shows x pv = true end)
+  \/ (refusable_given o = true /\ first_match bs o = VEnum None).
+Proof. exact (given_preserved_any_order bs o x). Qed.
+Print Assumptions C13_overlap_any_order.
+
+(*    a common reading that no ParamValue can hold (an int beyond 64 bits, whatever else the object is): refused *)
+Theorem C13_overlap_unrepresentable_refused o : unrepresentable (snd (expected_obj 4 o)) = true ->
+  exists e, export_param_value_obj o = Error e.
+Proof. intros U. exact (given_refuses o _ eq_refl U). Qed.
+Print Assumptions C13_overlap_unrepresentable_refused.
+
+(*    on one-facet objects all of this is the specification and the model of the plain values *)
+Theorem C13_overlap_conservative kind v :
+  snd (expected_obj kind (as_obj v)) = expected kind v /\ export_param_value_obj (as_obj v) = export_param_value v.
+Proof. split; [exact (expected_obj_plain kind v)|exact (export_obj_plain v)]. Qed.
+Print Assumptions C13_overlap_conservative.
+
+(* 8. per overlapping class *)
+(*    a member of `class Corner(str, Enum)` (the str it is and its value are the same text s): the literal s, as a dict entry /
+      Any-typed field, in a field typed by its own class, and in an Optional[str] field; given to a Scalar it is read as the string *)
+Definition str_enum (s : str) : pyobj := mkObj false (Some s) (Some (Some s)) None None None None None.
+Theorem C13_str_enum_preserved s :
+  expected_obj 4 (str_enum s) = (false, XLiteral s) /\
+  export_param_value_obj (str_enum s) = Ok (Some (PVLiteral s)) /\
+  store_obj 4 (str_enum s) = Ok (str_enum s) /\ store_obj 3 (str_enum s) = Ok (str_enum s) /\
+  store_obj 2 (str_enum s) = Ok (as_obj (VStr s)) /\
+  to_scalar_obj (str_enum s) = fresh (VStr s).
+Proof.
+  repeat split. unfold expected_obj, given, facets, readings, str_enum. cbn. rewrite str_eqb_refl. reflexivity.
+Qed.
+Print Assumptions C13_str_enum_preserved.
+
+(*    an IntEnum member: the Enum test comes before the int test and its value is no string — refused as given (never exported
+      as something else); handed to a Scalar it is the prefixed number of its integer value *)
+Definition int_enum (z : Z) : pyobj := mkObj false None (Some None) None None None (Some (z, false)) None.
+Theorem C13_int_enum z :
+  expected_obj 4 (int_enum z) = (true, XInt z) /\ export_param_value_obj (int_enum z) = Error EBadKind /\
+  to_scalar_obj (int_enum z) = Ok (as_obj (VPrefixed (mkP (of_int z 0) 0))).
+Proof. repeat split. Qed.
+Print Assumptions C13_int_enum.
+
+(*    ... so the ORDER of the tests is observable: with int asked before Enum the same object would be exported *)
+Theorem C13_dispatch_order_matters : exists o bs, reordering bs /\
+  export_param_value_obj o = Error EBadKind /\ export_param_value (first_match bs o) = Ok (Some (PVInt64 7)).
+Proof.
+  exists (int_enum 7), [br_none; br_str; br_int; br_enum; br_lit; br_pre; br_dec; br_flt]. split; [|split; reflexivity].
+  split; intros b H; cbn in H |- *; tauto.
+Qed.
+Print Assumptions C13_dispatch_order_matters.
+
+(*    True / False are ints: exported as the int64 1 / 0; a Scalar refuses them *)
+Definition py_bool (b : bool) : pyobj := mkObj false None None None None None (Some (if b then 1 else 0, true)) None.
+Theorem C13_bool b :
+  export_param_value_obj (py_bool b) = Ok (Some (PVInt64 (if b then 1 else 0))) /\
+  expected_obj 4 (py_bool b) = (false, XInt (if b then 1 else 0)) /\
+  (exists e, to_scalar_obj (py_bool b) = Error e) /\ fst (expected_obj 0 (py_bool b)) = true.
+Proof. destruct b; repeat split; eexists; reflexivity. Qed.
+Print Assumptions C13_bool.
+
+(* ---- non-vacuity *)
+Example C13_ex_corner : let o := str_enum (of_string "ff_n40C_1v95") in
+  obj_wf o = true /\ expected_obj 3 o = (false, XLiteral (of_string "ff_n40C_1v95")) /\
+  export_param_value_obj o = Ok (Some (PVLiteral (of_string "ff_n40C_1v95"))).
+Proof. vm_compute. repeat split. Qed.
+Example C13_ex_overlap_hyps : let o := mkObj false (Some (of_string "1e3")) (Some (Some (of_string "1e3"))) None None None None None in
+  obj_wf o = true /\ is_free (snd (expected_obj 0 o)) = false /\ unrepresentable (snd (expected_obj 0 o)) = false /\
+  snd (expected_obj 0 o) = XValue (mkDec false 1 3).
+Proof. vm_compute. repeat split. Qed.
+(* the readings differ (the str part and the Enum value are different texts): no requirement; the code takes the str part *)
+Example C13_ex_conflict : let o := mkObj false (Some (of_string "a")) (Some (Some (of_string "b"))) None None None None None in
+  snd (expected_obj 4 o) = XFree /\ export_param_value_obj o = Ok (Some (PVLiteral (of_string "a"))).
+Proof. vm_compute. repeat split. Qed.
+(* a str subclass that is also a Literal, both texts equal, given to a Scalar: passed as it is, exported through the str test *)
+Example C13_ex_str_literal : let o := mkObj false (Some (of_string "w/5")) None (Some (of_string "w/5")) None None None None in
+  to_scalar_obj o = Ok o /\ expected_obj 0 o = (false, XLiteral (of_string "w/5")) /\
+  export_param_value_obj o = Ok (Some (PVLiteral (of_string "w/5"))).
+Proof. vm_compute. repeat split. Qed.
+Example C13_ex_reordering : reordering [br_flt; br_int; br_dec; br_pre; br_lit; br_enum; br_str; br_none].
+Proof. split; intros b H; cbn in H |- *; tauto. Qed.
+Example C13_ex_overlap_big : let o := mkObj false None (Some None) None None None (Some (9223372036854775808, false)) None in
+  unrepresentable (snd (expected_obj 4 o)) = true /\ export_param_value_obj o = Error EBadKind.
+Proof. vm_compute. repeat split. Qed.
